@@ -40,30 +40,57 @@ def worker_init():
 
 
 class SymStr:
-    """the string typed at a prompt"""
+    """the string typed at a prompt (a z3 String), and strings derived from it by strip() / lower()"""
+    WS = " \t\n\r\x0b\x0c"
 
-    def __init__(self, z):
+    def __init__(self, z, root=None):
         self.z = z
+        self.root = root if root is not None else self
+        self.on_compare = None
+
+    def _told(self, r):
+        if self.root.on_compare:
+            self.root.on_compare(r)
+        return r
 
     def __eq__(self, o):
         if isinstance(o, str):
-            return sc.SymBool(self.z == z3.StringVal(o))
+            return self._told(bool(sc.SymBool(self.z == z3.StringVal(o))))
         return NotImplemented
 
     def __ne__(self, o):
         if isinstance(o, str):
-            return sc.SymBool(self.z != z3.StringVal(o))
+            return not self._told(bool(sc.SymBool(self.z == z3.StringVal(o))))
         return NotImplemented
     __hash__ = None
 
     def __str__(self):
         return "<answer>"
 
-    def lower(self):
-        raise sc.NotEncodable("answer.lower()")
+    def strip(self, chars=None):
+        """r with  s = p ++ r ++ q,  p and q whitespace only,  r neither starting nor ending with whitespace"""
+        if chars is not None:
+            raise sc.NotEncodable("answer.strip(chars)")
+        c = sc.ctx()
+        r, p, q = (z3.String("%s!%s%d" % (self.z.decl().name() if z3.is_const(self.z) else "str", k, len(c.axioms))) for k in ("strip", "pre", "post"))
+        ws = z3.Union(*[z3.Re(ch) for ch in self.WS])
+        nows = z3.Complement(z3.Concat(z3.Concat(z3.Full(z3.ReSort(z3.StringSort())), ws), z3.Full(z3.ReSort(z3.StringSort()))))
+        edge_ok = z3.Or(z3.Length(r) == 0,
+                        z3.And(z3.InRe(z3.SubString(r, 0, 1), nows), z3.InRe(z3.SubString(r, z3.Length(r) - 1, 1), nows)))
+        c.axiom(r, z3.And(self.z == z3.Concat(p, r, q), z3.InRe(p, z3.Star(ws)), z3.InRe(q, z3.Star(ws)), edge_ok))
+        return SymStr(r, self.root)
 
-    def strip(self):
-        raise sc.NotEncodable("answer.strip()")
+    def lower(self):
+        """ASCII lower-casing, character by character; bound: strings of at most 3 characters (longer answers are
+        outside the claim on paths that call lower())"""
+        c = sc.ctx()
+        r = z3.String("%s!lower%d" % (self.z.decl().name() if z3.is_const(self.z) else "str", len(c.axioms)))
+        cons = [z3.Length(self.z) <= 3, z3.Length(r) == z3.Length(self.z)]
+        for i in range(3):
+            a, b = z3.StrToCode(z3.SubString(self.z, i, 1)), z3.StrToCode(z3.SubString(r, i, 1))
+            cons.append(z3.Implies(z3.Length(self.z) > i, b == z3.If(z3.And(a >= 65, a <= 90), a + 32, a)))
+        c.axiom(r, z3.And(cons))
+        return SymStr(r, self.root)
 
 
 WRITERS = ["tum", "kitti", "res", "table", "plot_pdf", "plot_png", "plot_png_two_figures_second_exists", "serialize"]
@@ -316,21 +343,7 @@ def run_scenario(case, col):
     inputs.update(exists=z3.Int("exists!c0"), confirm=z3.Int("confirm!c1"), as_path=z3.Int("as_path!c2"))
     state = {}
 
-    class Tracked(SymStr):
-        on_compare = None
-
-        def __ne__(self, o):
-            r = bool(SymStr.__ne__(self, o))
-            if self.on_compare:
-                self.on_compare(not r)
-            return r
-
-        def __eq__(self, o):
-            r = bool(SymStr.__eq__(self, o))
-            if self.on_compare:
-                self.on_compare(r)
-            return r
-        __hash__ = None
+    Tracked = SymStr
 
     def fn():
         c = sc.ctx()
@@ -356,6 +369,10 @@ def run_scenario(case, col):
             bad2 = judge(obs2, confirm)
             return bool(bad2), "; ".join(bad2) or "ok (answers %r)" % (answers,)
         g = {"no_overwrite_without_confirmation_and_replacement_when_allowed": z3.BoolVal(not bad)}
+        # an answer that evo accepted as confirmation was exactly 'y' (matters when the code compares a derived string)
+        acc = [k for k, (p_, yes) in enumerate(obs["prompts"]) if yes]
+        if acc:
+            g["accepted_answers_are_exactly_y"] = z3.And([z3.String("answer_%d" % k) == z3.StringVal("y") for k in acc])
         runner.check_obligations(col, pr.ctx, g, inputs, replay, descr="%s exists=%s warnings_on=%s pathlib=%s prompts=%r -> %s" % (
             case["name"], exists, confirm, as_path, [(os.path.basename(str(p)), y) for p, y in obs["prompts"]], "; ".join(bad) or "ok"))
 
